@@ -43,7 +43,12 @@ Definition verdict_of (s : spec_out) (m : mres (list (option tval))) (cls : opti
   | SOutOfDomain => 4%Z
   | _ => if holds s o
          then (match s with
-               | SEither _ => 0%Z      (* S allows both outcomes: moving between them does not break the correspondence *)
+               | SEither _ =>
+                   (* S allows a refusal because the library need not implement everything. Computing
+                      where the model refuses is fine (the value is S's). REFUSING what the model of the
+                      current code computes -- and S confirms -- is a configuration the library implements
+                      and no longer answers: a violation, not drift *)
+                   match m, o with MOk _, OErr _ => 2%Z | _, _ => 0%Z end
                | _ => if agree m o then 0%Z else 3%Z
                end)
          else match cls with
